@@ -254,11 +254,15 @@ def judgeAccepted (env : Env) (s : State) (c : Call) (r : Response) (s' : State)
     else v.check "C02" "C02_matchOK_inexact" (C02_matchOK ct s a b p sz r s')
   | .cancelAsk id =>
     let v := v.check "C04" "C04_askOK" (C04_askOK ct s id none r s')
+    let v := if sane s then v.check "C08" "C08_releaseOK" (C08_releaseOK ct s id r s') else v
     v.check "C06" "C06_askExitOK" (C06_askExitOK ct s id r s')
   | .expireAsk id =>
     let v := v.check "C04" "C04_askOK" (C04_askOK ct s id none r s')
+    let v := if sane s then v.check "C08" "C08_releaseOK" (C08_releaseOK ct s id r s') else v
     v.check "C06" "C06_askExitOK" (C06_askExitOK ct s id r s')
-  | .rejectAsk id sz => v.check "C04" "C04_askOK" (C04_askOK ct s id sz r s')
+  | .rejectAsk id sz =>
+    let v := if sane s then v.check "C08" "C08_releaseOK" (C08_releaseOK ct s id r s') else v
+    v.check "C04" "C04_askOK" (C04_askOK ct s id sz r s')
   | .cancelBid id =>
     let v := v.check "C04" "C04_bidOK" (C04_bidOK ct s id none r s')
     v.check "C06" "C06_bidExitOK" (C06_bidExitOK ct s id r s')
